@@ -344,6 +344,18 @@ def _run(plan, ctx, child):
                     def __getattr__(self_inner, name):
                         return getattr(inner, name)
                 session.sim_engine = ClearingEngine()
+            # the same backtest served once under the PLAIN host state (a host that tightened its warning filter,
+            # numpy error state, ... only afterwards): whatever that run left in the memo caches must not matter
+            from ..core import HOST_PLAIN
+            if any(cfg.get(k, v) != v for k, v in HOST_PLAIN.items()):
+                plain_cfg = dict(cfg)
+                plain_cfg.update(HOST_PLAIN)
+                sl.run_session(plain_cfg, market, monitors=False, shared_source=src)
+                ctx.fault("shared_source_served_same_backtest_under_plain_host_state")
+            # first with the memo caches as those sessions and queries left them, then with mid-run cache clears
+            out3a = sl.run_session(cfg, market, monitors=True, shared_source=src, uuid_seed=us + 5)
+            d3a, p3a = result_digest(out3a)
+            variants.append(("shared_source_with_history", d3a, p3a))
             out3 = sl.run_session(cfg, market, monitors=True, shared_source=src, hooks=hooks, uuid_seed=us + 2)
             d3, p3 = result_digest(out3)
             variants.append(("shared_source_with_history_and_cache_clears", d3, p3))
